@@ -3,6 +3,8 @@ can take (closures with captured mutation, iterator adapters, HashMap): mul, mul
 symb_evaluate), neg, half, normalize, symb_evaluate, inc_of, prod_inc_of, prod_of, split_along is
 NOT included.  The oracle is `Expr::evaluate`, whose contract (== eval) is PROVED in unit u4_expr.
 
+For the unary operations additionally every sum of 3-4 monomials sharing one variable support
+(x*y, x*x*y, x*y*y, x*x*y*y / x, x*x, x*x*x) with all combinations of 7 boundary coefficients (~2400).
 Enumerated: every expression of a generated family (sums and products of up to three factors
 over two variables with coefficients from a boundary set, ~300 expressions), every pair of them for
 binary operations, every assignment of the two variables over a boundary set of cell values; at
